@@ -254,11 +254,13 @@ def run_shard(spec, ctx):
         return
     if kind == 'reject_grid':
         # every start in a set of interesting addresses x every length in a set of interesting sizes that passes 0x4300
-        starts = sorted({0, 1, 2, 0x1fff, 0x2000, 0x3000, 0x3100, 0x3200, 0x42fe, 0x42ff, 0x4300, 0x4301})
+        starts = sorted({0, 1, 2, 0x1fff, 0x2000, 0x3000, 0x3100, 0x3200, 0x42fe, 0x42ff, 0x4300, 0x4301,
+                         # addresses beyond the cart data, beyond 16 and 32 bits: nothing there is cart memory
+                         0x5e00, 0x8000, 0xffff, 0x10000, 0x10001, 0x12000, 0x14300, 0x20000, 0xffffffff, 0x100000000, 0x100003000})
         sizes = sorted({1, 2, 0x100, 0x1000, 0x1100, 0x2000, 0x4300, 0x4301, 0x42ff, 0x7fff, 0x8000, 0x8001, 0x3d00, 0x8600, 0x10000, 0x4300 * 2})
         for s_ in starts:
             for n in sizes:
-                if s_ + n <= DATA_END:
+                if s_ + n <= DATA_END or (s_ > 0x4301 and n > 0x1100):
                     continue
                 for typ in (bytes, bytearray):
                     g, sh = _new_game(rng)
